@@ -491,7 +491,8 @@ class Inliner:
             v = bind[p_]
             if p_ not in stored and _simple(v):
                 subst[p_] = v
-            elif isinstance(v, ast.Name) and v.id in s_targets and sum(1 for q in params if isinstance(bind[q], ast.Name) and bind[q].id == v.id) == 1:
+            elif isinstance(v, ast.Name) and (v.id in s_targets or (isinstance(s, ast.Return) and getattr(holder, fld) is call)) and sum(1 for q in params if isinstance(bind[q], ast.Name) and bind[q].id == v.id) == 1 and v.id not in {"self", "cls"}:
+                # in `return helper(a, ..)` the caller's `a` is dead after the call as well
                 # `X, .. = helper(X, ..)`: the helper may work on the caller's own variable
                 if p_ != v.id:
                     rename[p_] = v.id
